@@ -1,4 +1,671 @@
+/* unit he - hazard_eras guard_ptr operations and hazard-era slots (C18, C15 guard part, C01 protect side).
+ * Contracts, ghost state, invariant and harnesses only; every function body comes from lowered.h. */
+#include <stdint.h>
+#include <stddef.h>
+#ifndef XV_K
+#define XV_K 2
+#endif
+static void mon_load(void* addr, int order);
+static void mon_store(void* addr, int order);
+static void mon_fence(int order);
+#define XV_ON_LOAD(addr, val, order) mon_load((void*)(addr), (order))
+#define XV_ON_STORE(addr, val, order) mon_store((void*)(addr), (order))
+#define XV_ON_FENCE(order) mon_fence(order)
 #include "xv.h"
-#define XV_INV_ACQ 1
-#define XV_HAVOC_ACQ prev_era = 0; he=0; ptr=0
+int xv_threw; uint64_t xv_clock, xv_rmw_old; _Bool xv_cas_ok;
+#define XV_EXC_bad_hazard_era_alloc 1
+#define TSAN_MEMORY_ORDER(tsan_order, normal_order) normal_order
+
+/* ---------------- types ---------------- */
+typedef uint64_t era_t;
+typedef uintptr_t mptr;                 /* MarkedPtr of a guard: opaque word; get() selects the pointer bits with an arbitrary mask */
+struct hazard_era;
+/* marked_ptr<void*,1> of a slot: either an era (word, mark 0) or a link (pointer, mark 1).  Contract of marked_ptr (unit mp):
+ * get()/mark() return what the constructor was given; reading the other alternative yields an arbitrary value. */
+struct hev { uintptr_t w; struct hazard_era* lp; unsigned char mark; };
+struct hazard_era { struct hev value; uint64_t guard_cnt; };
+struct he_block;
+struct tcb { struct hazard_era* last_hazard_era; era_t last_era; struct hazard_era eras[XV_K]; size_t total_number_of_hes; struct he_block* he_block; };
+struct obj { struct obj* next; era_t construction_era, retirement_era; int deleter; unsigned set_deleter_calls; };
+struct thread_data { struct obj* retire_list; size_t number_of_retired_nodes; struct hazard_era* hint; struct tcb* control_block; };
+struct guard { mptr ptr; struct hazard_era* he; };
+
+#define ERA_MAX ((era_t)1 << 62)
+#define CNT_MAX ((uint64_t)1 << 62)
+
+/* ---------------- global state of the model ---------------- */
+struct tcb g_cb;                        /* the thread's control block (or the record acquire_inactive_entry will hand out) */
+struct thread_data g_td;
+era_t era_clock; size_t g_number_of_active_hes; uintptr_t g_ptr_mask; int global_thread_block_list;
+mptr g_src;                             /* the concurrent_ptr acquire reads */
+struct guard ga, gb;                    /* operand guards */
+uint64_t g_others[XV_K];                /* ghost: number of live guards other than the operands that hold slot i */
+struct obj g_obj; mptr g_obj_word; size_t g_threshold; unsigned g_scan_calls, g_acquire_entry_calls;
+
+static struct hazard_era* any_slot_or_null(void) { unsigned i = nondet_uint(); return i < XV_K ? &g_cb.eras[i] : (struct hazard_era*)0; }
+static int slot_idx(const struct hazard_era* p) { for (int i = 0; i < XV_K; i++) if (p == &g_cb.eras[i]) return i; return -1; }
+
+/* ---------------- marked_ptr<void*,1> stub ---------------- */
+static struct hev hev_make_era(uintptr_t x) {
+  XV_XASSERT((x >> 63) == 0);          /* make_ptr: "bits reserved for masking are occupied by the pointer" */
+  struct hev v; v.w = x; v.lp = any_slot_or_null(); v.mark = 0; return v; }
+static struct hev hev_make_link(struct hazard_era* p, uintptr_t m) { struct hev v; v.w = nondet_uptr(); v.lp = p; v.mark = (unsigned char)(m & 1); return v; }
+#define HEV_make(...) XV_PICK2(__VA_ARGS__, hev_make_link, hev_make_era)(__VA_ARGS__)
+#define HEV_mark(v) ((v).mark)
+#define HEV_get(v) ((v).w)
+#define HEV_get_link(v) ((v).lp)
+
+/* ---------------- call plumbing (receiver is passed as an lvalue by the lowering) ---------------- */
+static void he_set_era(struct hazard_era* self, era_t era);
+static era_t he_get_era(struct hazard_era* self);
+static uint64_t he_guards(struct hazard_era* self);
+static uint64_t he_add_guard(struct hazard_era* self);
+static uint64_t he_release_guard(struct hazard_era* self);
+static _Bool he_try_get_era(struct hazard_era* self, era_t* result_p);
+static void he_set_link(struct hazard_era* self, struct hazard_era* link);
+static struct hazard_era* he_get_link(struct hazard_era* self);
+static _Bool he_is_link(struct hazard_era* self);
+#define HE_set_era(s, e) he_set_era(&(s), (e))
+#define HE_get_era(s) he_get_era(&(s))
+#define HE_guards(s) he_guards(&(s))
+#define HE_add_guard(s) he_add_guard(&(s))
+#define HE_release_guard(s) he_release_guard(&(s))
+#define HE_set_link(s, l) he_set_link(&(s), (l))
+#define HE_get_link(s) he_get_link(&(s))
+#define HE_is_link(s) he_is_link(&(s))
+static struct hazard_era* static_need_more_hes(struct tcb* self);
+static size_t static_number_of_hes(struct tcb* self);
+static struct hazard_era* static_initialize_next_block(struct tcb* self);
+static struct hazard_era* cb_begin(struct tcb* self);
+static struct hazard_era* cb_end(struct tcb* self);
+static struct hazard_era* cb_initialize_block(struct tcb* block_p);
+static void cb_initialize(struct tcb* self, struct hazard_era** hint_p);
+static struct hazard_era* cb_alloc_hazard_era(struct tcb* self, struct hazard_era** hint_p, era_t era);
+static void cb_release_hazard_era(struct tcb* self, struct hazard_era** he_p, struct hazard_era** hint_p);
+#define CB_need_more_hes(self) static_need_more_hes(self)
+#define CB_number_of_hes(self) static_number_of_hes(self)
+#define CB_initialize_next_block(b) static_initialize_next_block(&(b))
+#define CB_begin(b) cb_begin(&(b))
+#define CB_end(b) cb_end(&(b))
+#define CB_initialize(cb, hint) cb_initialize(&(cb), &(hint))
+#define CB_activate(cb) ((void)0)
+#define CB_alloc_hazard_era(cb, hint, era) cb_alloc_hazard_era(&(cb), &(hint), (era))
+#define CB_release_hazard_era(cb, he, hint) cb_release_hazard_era(&(cb), &(he), &(hint))
+/* stub of thread_block_list::acquire_inactive_entry: hands out the (fresh or left-over) record g_cb */
+static struct tcb* xv_acquire_inactive_entry(void) { g_acquire_entry_calls++; return &g_cb; }
+#define TBL_acquire_inactive_entry(list) xv_acquire_inactive_entry()
+static void td_ensure_has_control_block(struct thread_data* self);
+static struct hazard_era* td_alloc_hazard_era(struct thread_data* self, era_t era);
+static void td_release_hazard_era(struct thread_data* self, struct hazard_era** he_p);
+static size_t td_add_retired_node(struct thread_data* self, struct obj* p);
+#define local_thread_data() g_td
+#define TD_alloc_hazard_era(td, era) td_alloc_hazard_era(&(td), (era))
+#define TD_release_hazard_era(td, he) td_release_hazard_era(&(td), &(he))
+#define TD_add_retired_node(td, p) td_add_retired_node(&(td), (p))
+#define TD_scan(td) (g_scan_calls++)   /* stub: the reclaim side never writes the calling thread's slots */
+#define XV_retired_nodes_threshold() g_threshold
+static void g_reset(struct guard* self);
+static void g_do_swap(struct guard* self, struct guard* g_p);
+#define MP_get(w) ((w) & g_ptr_mask)
+#define MP_reset(x) ((x) = 0)
+static struct obj* xv_obj_of(mptr w) { g_obj_word = w; return &g_obj; }
+#define MP_get_obj(w) xv_obj_of(w)
+#define OBJ_set_deleter(o, d) ((o).deleter = (d), (o).set_deleter_calls++)
+#define XV_INIT_base(self, p) ((self)->ptr = (p))
+#define XV_INIT_he(self, v) ((self)->he = (v))
+#define XV_SWAP_HE(a, b) do { struct hazard_era* xv_s = (a); (a) = (b); (b) = xv_s; } while (0)
+#define XV_SWAP_PTR(a, b) do { mptr xv_s = (a); (a) = (b); (b) = xv_s; } while (0)
+
+/* ---------------- monitors ---------------- */
+uint64_t mon_src_loads, mon_first_src_clk, mon_last_src_clk, mon_last_era_clk, mon_era_loads;
+mptr mon_first_src_val, mon_last_src_val; era_t mon_last_era_val; int mon_first_src_order, mon_last_src_order;
+_Bool mon_unfenced_era_store, mon_src_load_unfenced, mon_last_slot_store_release = 1;
+static void mon_load(void* addr, int order) {
+  if (addr == (void*)&g_src) {
+    if (mon_src_loads == 0) { mon_first_src_clk = xv_clock; mon_first_src_val = g_src; mon_first_src_order = order; }
+    mon_src_loads++; mon_last_src_clk = xv_clock; mon_last_src_val = g_src; mon_last_src_order = order; mon_src_load_unfenced = mon_unfenced_era_store;
+  }
+  if (addr == (void*)&era_clock) { mon_era_loads++; mon_last_era_clk = xv_clock; mon_last_era_val = era_clock; }
+}
+static void mon_store(void* addr, int order) {
+  for (int i = 0; i < XV_K; i++) if (addr == (void*)&g_cb.eras[i].value) {
+    if (g_cb.eras[i].value.mark == 0) mon_unfenced_era_store = 1;
+    if (!XV_IS_RELEASE(order)) mon_last_slot_store_release = 0;
+  }
+}
+static void mon_fence(int order) { if (order == mo_seq_cst) mon_unfenced_era_store = 0; }
+
+/* ---------------- environment (INT): other threads change the source cell and advance the era clock ---------------- */
+#ifdef XV_INT
+_Bool env_on;
+void xv_env(void) {
+  if (!env_on) return;
+  g_src = nondet_uptr();
+  era_t n = nondet_u64(); if (n >= era_clock && n < ERA_MAX) era_clock = n;     /* rely: the era clock never decreases */
+}
+#endif
+
+/* ---------------- invariant Inv_K ---------------- */
+static era_t slot_era(const struct hazard_era* s) { return (era_t)(s->value.w >> 1); }
+struct inv_res { _Bool count_ok, rest_ok; };
+/* a, b: live operand guards (or NULL) */
+static struct inv_res inv_eval(const struct guard* a, const struct guard* b) {
+  struct inv_res r; r.count_ok = 1; r.rest_ok = 1;
+  if (!(era_clock >= 1 && era_clock < ERA_MAX)) r.rest_ok = 0;
+  if (a && a->he && slot_idx(a->he) < 0) r.rest_ok = 0;
+  if (b && b->he && slot_idx(b->he) < 0) r.rest_ok = 0;
+  if (g_td.control_block == 0) {
+    /* no record yet: nobody holds a slot; g_cb is what acquire_inactive_entry will return (all counts 0, cache empty) */
+    if ((a && a->he) || (b && b->he)) r.count_ok = 0;
+    for (int i = 0; i < XV_K; i++) { if (g_others[i] != 0 || g_cb.eras[i].guard_cnt != 0) r.count_ok = 0; }
+    if (g_cb.last_hazard_era != 0) r.rest_ok = 0;
+    return r;
+  }
+  if (g_td.control_block != &g_cb) { r.rest_ok = 0; return r; }
+  _Bool onchain[XV_K]; for (int i = 0; i < XV_K; i++) onchain[i] = 0;
+  const struct hazard_era* p = g_td.hint;
+  for (int n = 0; n < XV_K && p != 0; n++) {
+    int j = slot_idx(p);
+    if (j < 0 || onchain[j] || !p->value.mark) { r.rest_ok = 0; return r; }
+    onchain[j] = 1; p = p->value.lp;
+  }
+  if (p != 0) { r.rest_ok = 0; return r; }
+  for (int i = 0; i < XV_K; i++) {
+    const struct hazard_era* s = &g_cb.eras[i];
+    uint64_t cnt = g_others[i] + ((a && a->he == s) ? 1 : 0) + ((b && b->he == s) ? 1 : 0);
+    if (s->guard_cnt != cnt) r.count_ok = 0;
+    if (onchain[i] != (s->guard_cnt == 0)) r.rest_ok = 0;          /* free <=> nobody counts in it */
+    if (!onchain[i]) {                                            /* held: publishes an era, no link tag */
+      if (s->value.mark != 0) r.rest_ok = 0;
+      if ((s->value.w & 1) != 0 || slot_era(s) == 0 || slot_era(s) > era_clock) r.rest_ok = 0;
+    }
+  }
+  if (g_cb.last_hazard_era != 0) {                                /* the last-era cache names a held slot that publishes an era >= last_era */
+    int j = slot_idx(g_cb.last_hazard_era);
+    if (j < 0 || onchain[j] || g_cb.last_era > slot_era(g_cb.last_hazard_era)) r.rest_ok = 0;
+  }
+  return r;
+}
+static _Bool inv_ok(const struct guard* a, const struct guard* b) { struct inv_res r = inv_eval(a, b); return r.count_ok && r.rest_ok; }
+/* a guard that holds an object holds a slot (GI1); a guard that holds nothing holds no slot (GI2) */
+static _Bool gi1(const struct guard* g) { return MP_get(g->ptr) == 0 || g->he != 0; }
+static _Bool gi2(const struct guard* g) { return g->he == 0 || g->ptr != 0; }
+
+struct tcb pre_cb; struct thread_data pre_td; struct guard pre_a, pre_b; era_t pre_clock; size_t pre_active;
+/* every slot another guard relies on still publishes the era it published before (and is not a link) */
+static _Bool others_intact(const struct guard* b) {
+  for (int i = 0; i < XV_K; i++) {
+    _Bool relied = g_others[i] >= 1 || (b && pre_b.he == &g_cb.eras[i]);
+    if (relied && (g_cb.eras[i].value.mark != 0 || g_cb.eras[i].value.w != pre_cb.eras[i].value.w)) return 0;
+  }
+  return 1;
+}
+static _Bool slot_same(int i) {
+  return g_cb.eras[i].guard_cnt == pre_cb.eras[i].guard_cnt && g_cb.eras[i].value.mark == pre_cb.eras[i].value.mark &&
+         (g_cb.eras[i].value.mark ? g_cb.eras[i].value.lp == pre_cb.eras[i].value.lp : g_cb.eras[i].value.w == pre_cb.eras[i].value.w);
+}
+static _Bool slots_same_except(int x) { for (int i = 0; i < XV_K; i++) if (i != x && !slot_same(i)) return 0; return 1; }
+static _Bool cb_same(void) {
+  return slots_same_except(-1) && g_cb.last_hazard_era == pre_cb.last_hazard_era && (g_cb.last_hazard_era == 0 || g_cb.last_era == pre_cb.last_era) &&
+         g_td.hint == pre_td.hint && g_td.control_block == pre_td.control_block && g_td.retire_list == pre_td.retire_list &&
+         g_td.number_of_retired_nodes == pre_td.number_of_retired_nodes && g_number_of_active_hes == pre_active;
+}
+static _Bool guard_eq(const struct guard* x, const struct guard* y) { return x->ptr == y->ptr && x->he == y->he; }
+static _Bool guard_empty(const struct guard* x) { return x->ptr == 0 && x->he == 0; }
+
+/* inputs (also used by the native replay programs) */
+unsigned in_K, in_op, in_hint, in_last, in_a_he, in_b_he, in_has_cb; era_t in_last_era, in_clock, in_era[XV_K]; uint64_t in_others[XV_K]; unsigned in_link[XV_K];
+mptr in_a_ptr, in_b_ptr, in_src, in_expected, in_mask; era_t in_req_era; int in_order;
+
+static struct hazard_era* slot_of(unsigned i) { return i < XV_K ? &g_cb.eras[i] : (struct hazard_era*)0; }
+static void havoc_guard(struct guard* g, unsigned* in_he, mptr* in_ptr) {
+  *in_he = nondet_uint(); *in_ptr = nondet_uptr(); g->he = slot_of(*in_he); g->ptr = *in_ptr; }
+
+/* havoc everything, then assume Inv_K with the live operand guards a, b */
+static void havoc_state(const struct guard* a, const struct guard* b) {
+  in_K = XV_K;
+  in_has_cb = nondet_bool(); in_hint = nondet_uint(); in_last = nondet_uint(); in_last_era = nondet_u64(); in_clock = nondet_u64(); in_mask = nondet_uptr();
+  g_td.control_block = in_has_cb ? &g_cb : (struct tcb*)0; g_td.hint = slot_of(in_hint);
+  g_td.retire_list = nondet_bool() ? &g_obj : (struct obj*)0; g_td.number_of_retired_nodes = nondet_size(); XV_ASSUME(g_td.number_of_retired_nodes < CNT_MAX);
+  g_cb.last_hazard_era = slot_of(in_last); g_cb.last_era = in_last_era; g_cb.total_number_of_hes = nondet_size(); g_cb.he_block = 0;
+  era_clock = in_clock; g_ptr_mask = in_mask; g_number_of_active_hes = nondet_size(); g_threshold = nondet_size();
+  for (int i = 0; i < XV_K; i++) {
+    in_others[i] = nondet_u64(); in_era[i] = nondet_u64(); in_link[i] = nondet_uint();
+    g_others[i] = in_others[i];
+    g_cb.eras[i].guard_cnt = nondet_u64();
+    g_cb.eras[i].value.mark = nondet_bool();
+    g_cb.eras[i].value.lp = slot_of(in_link[i]);
+    g_cb.eras[i].value.w = g_cb.eras[i].value.mark ? nondet_uptr() : (uintptr_t)(in_era[i] << 1);
+    XV_ASSUME(in_era[i] < ERA_MAX && in_others[i] < CNT_MAX);   /* fewer than 2^62 guard objects */
+  }
+  g_obj.next = 0; g_obj.construction_era = nondet_u64(); g_obj.retirement_era = nondet_u64(); g_obj.deleter = nondet_int(); g_obj.set_deleter_calls = 0;
+  g_src = nondet_uptr(); g_scan_calls = 0; g_acquire_entry_calls = 0; xv_threw = 0; xv_clock = nondet_u64(); XV_ASSUME(xv_clock < CNT_MAX);
+  mon_src_loads = 0; mon_era_loads = 0; mon_unfenced_era_store = 0; mon_src_load_unfenced = 0; mon_last_slot_store_release = 1;
+  XV_ASSUME(inv_ok(a, b));
+  if (a) XV_ASSUME(gi1(a) && gi2(a));
+  if (b) XV_ASSUME(gi1(b) && gi2(b));
+  pre_cb = g_cb; pre_td = g_td; pre_a = ga; pre_b = gb; pre_clock = era_clock; pre_active = g_number_of_active_hes;
+}
+
+/* checks common to every exit of every guard operation */
+static void chk_exit(const struct guard* a, const struct guard* b) {
+  struct inv_res r = inv_eval(a, b);
+  XV_OBL("he.count.exact", r.count_ok);
+  XV_OBL("he.guard_ops.preserve_inv", r.rest_ok);
+  XV_OBL("he.guard_ops.others_intact", others_intact(b));
+  XV_OBL("he.sync.publish_then_fence", !mon_unfenced_era_store && mon_last_slot_store_release);
+}
+
+/* loop invariant of acquire's retry loop (self = the guard, prev_era = local) */
+#define XV_INV_ACQ (self == &ga && !xv_threw && inv_ok(&ga, &gb) && others_intact(&gb) && guard_eq(&gb, &pre_b) \
+   && (ga.he == 0 ? prev_era == 0 : prev_era == slot_era(ga.he)) \
+   && order != mo_relaxed && order != mo_consume && !mon_unfenced_era_store && mon_last_slot_store_release && xv_clock < CNT_MAX && era_clock >= pre_clock)
+#define XV_HAVOC_ACQ acq_havoc(); self->he = any_slot_or_null(); self->ptr = nondet_uptr(); prev_era = nondet_u64()
+static void acq_havoc(void) {
+  for (int i = 0; i < XV_K; i++) {
+    g_cb.eras[i].guard_cnt = nondet_u64(); g_cb.eras[i].value.mark = nondet_bool(); g_cb.eras[i].value.lp = any_slot_or_null(); g_cb.eras[i].value.w = nondet_uptr();
+  }
+  g_cb.last_hazard_era = any_slot_or_null(); g_cb.last_era = nondet_u64();
+  g_td.hint = any_slot_or_null(); g_td.control_block = nondet_bool() ? &g_cb : (struct tcb*)0;
+  g_number_of_active_hes = nondet_size(); g_acquire_entry_calls = nondet_uint();
+  ga.he = any_slot_or_null(); ga.ptr = nondet_uptr();
+  g_src = nondet_uptr(); era_clock = nondet_u64(); xv_clock = nondet_u64();
+  mon_src_loads = nondet_u64(); mon_era_loads = nondet_u64(); mon_first_src_clk = nondet_u64(); mon_last_src_clk = nondet_u64(); mon_last_era_clk = nondet_u64();
+  mon_first_src_val = nondet_uptr(); mon_last_src_val = nondet_uptr(); mon_last_era_val = nondet_u64(); mon_first_src_order = nondet_int(); mon_last_src_order = nondet_int();
+  mon_unfenced_era_store = nondet_bool(); mon_src_load_unfenced = nondet_bool(); mon_last_slot_store_release = nondet_bool();
+}
+
 #include "lowered.h"
+
+/* =====================================================  slot level  ===================================================== */
+static int chain_pos(const struct hazard_era* s) {      /* position of s on the free chain, -1 if not on it */
+  const struct hazard_era* p = g_td.hint;
+  for (int n = 0; n < XV_K && p != 0; n++) { if (p == s) return n; p = p->value.lp; }
+  return -1;
+}
+
+static void h_alloc(void) {
+  havoc_state(0, 0);
+  in_req_era = nondet_u64();
+  XV_ASSUME(in_req_era >= 1 && in_req_era <= era_clock);
+  /* the requested era was read from the era clock after every era this thread has published */
+  if (g_td.control_block != 0 && g_cb.last_hazard_era != 0) XV_ASSUME(in_req_era >= slot_era(g_cb.last_hazard_era));
+  struct hazard_era* r = td_alloc_hazard_era(&g_td, in_req_era);
+  _Bool had_cb = pre_td.control_block != 0;
+  _Bool share = had_cb && pre_cb.last_hazard_era != 0 && pre_cb.last_era == in_req_era;
+  if (xv_threw) {
+    XV_OBL("he.alloc.k_available", had_cb && !share && pre_td.hint == 0);      /* throws only when no slot is free and none can be shared */
+    XV_OBL("he.alloc.exhausted_throws", xv_threw == XV_EXC_bad_hazard_era_alloc && r == 0 && cb_same() && inv_ok(0, 0));
+    XV_CANARY("alloc.throw");
+  } else {
+    XV_OBL("he.alloc.k_available", r != 0 && slot_idx(r) >= 0);
+    int j = slot_idx(r); XV_ASSUME(j >= 0 && j < XV_K);
+    XV_OBL("he.alloc.publishes_era", r->value.mark == 0 && slot_era(r) == in_req_era);
+    XV_OBL("he.alloc.frame", (!had_cb || slots_same_except(j)) && r->guard_cnt == (had_cb ? pre_cb.eras[j].guard_cnt : 0) + 1);
+    if (share) {
+      XV_OBL("he.alloc.shares_same_era", r == pre_cb.last_hazard_era && g_td.hint == pre_td.hint && r->value.w == pre_cb.eras[j].value.w &&
+             g_cb.last_hazard_era == pre_cb.last_hazard_era && g_cb.last_era == pre_cb.last_era);
+      XV_CANARY("alloc.share");
+    } else if (had_cb) {
+      XV_OBL("he.alloc.takes_chain_head", r == pre_td.hint && g_td.hint == pre_cb.eras[j].value.lp && r->guard_cnt == 1 &&
+             g_cb.last_hazard_era == r && g_cb.last_era == in_req_era && g_acquire_entry_calls == 0);
+      XV_CANARY("alloc.fresh");
+    } else {
+      XV_OBL("he.initialize.all_free", g_td.control_block == &g_cb && g_acquire_entry_calls == 1 && g_number_of_active_hes == pre_active + XV_K &&
+             r == &g_cb.eras[0] && g_td.hint == (XV_K > 1 ? &g_cb.eras[1] : (struct hazard_era*)0));
+      XV_CANARY("alloc.first_use");
+    }
+    g_others[j]++;                                   /* the caller becomes a live guard on r */
+    struct inv_res res = inv_eval(0, 0);
+    XV_OBL("he.count.exact", res.count_ok);
+    XV_OBL("he.guard_ops.preserve_inv", res.rest_ok);
+    XV_OBL("he.sync.publish_then_fence", !mon_unfenced_era_store && mon_last_slot_store_release);
+  }
+}
+
+static void h_release(void) {
+  havoc_state(0, 0);
+  unsigned s = nondet_uint(); in_a_he = s;
+  struct hazard_era* he = slot_of(s);
+  if (he) { XV_ASSUME(g_others[s] >= 1); g_others[s]--; }           /* the releasing guard is one of the live guards on s */
+  struct hazard_era* he0 = he;
+  td_release_hazard_era(&g_td, &he);
+  XV_OBL("he.release.returns_slot", he == 0 && !xv_threw);
+  if (he0 == 0) { XV_OBL("he.release.returns_slot", cb_same()); XV_CANARY("release.null"); }
+  else {
+    XV_OBL("he.release.returns_slot", slots_same_except(s) && he0->guard_cnt == pre_cb.eras[s].guard_cnt - 1);
+    if (pre_cb.eras[s].guard_cnt == 1) {
+      XV_OBL("he.release.returns_slot", g_td.hint == he0 && he0->value.mark == 1 && he0->value.lp == pre_td.hint &&
+             g_cb.last_hazard_era == (pre_cb.last_hazard_era == he0 ? (struct hazard_era*)0 : pre_cb.last_hazard_era));
+      XV_CANARY("release.to_zero");
+    } else {
+      XV_OBL("he.release.returns_slot", g_td.hint == pre_td.hint && slot_era(he0) == slot_era(&pre_cb.eras[s]) && he0->value.mark == 0 &&
+             g_cb.last_hazard_era == pre_cb.last_hazard_era);
+      XV_CANARY("release.shared");
+    }
+    struct inv_res res = inv_eval(0, 0);
+    XV_OBL("he.count.exact", res.count_ok);
+    XV_OBL("he.guard_ops.preserve_inv", res.rest_ok);
+    XV_OBL("he.guard_ops.others_intact", others_intact(0));
+  }
+}
+
+/* initialize on an arbitrary left-over record: every slot ends up on the free chain */
+static void h_initialize(void) {
+  havoc_state(0, 0);
+  for (int i = 0; i < XV_K; i++) { XV_ASSUME(g_cb.eras[i].guard_cnt == 0); g_others[i] = 0; }
+  XV_ASSUME(g_number_of_active_hes < CNT_MAX);
+  size_t act = g_number_of_active_hes;
+  cb_initialize(&g_cb, &g_td.hint);
+  g_td.control_block = &g_cb; g_cb.last_hazard_era = 0;
+  _Bool ok = g_td.hint == &g_cb.eras[0];
+  for (int i = 0; i < XV_K; i++) ok = ok && g_cb.eras[i].value.mark == 1 && g_cb.eras[i].value.lp == (i + 1 < XV_K ? &g_cb.eras[i + 1] : (struct hazard_era*)0) && g_cb.eras[i].guard_cnt == 0;
+  XV_OBL("he.initialize.all_free", ok && g_number_of_active_hes == act + XV_K && inv_ok(0, 0) && !xv_threw);
+  XV_CANARY("initialize.done");
+}
+
+/* from "all free": K allocations with pairwise different eras succeed and return pairwise different slots; one more throws */
+static void h_alloc_k(void) {
+  havoc_state(0, 0);
+  XV_ASSUME(g_td.control_block != 0);
+  for (int i = 0; i < XV_K; i++) XV_ASSUME(g_cb.eras[i].guard_cnt == 0);
+  XV_ASSUME(era_clock > XV_K + 1);
+  struct hazard_era* got[XV_K + 1]; era_t e = nondet_u64(); XV_ASSUME(e >= 1 && e < ERA_MAX && e + XV_K + 1 <= era_clock);
+  _Bool ok = 1;
+  for (int i = 0; i < XV_K; i++) {
+    got[i] = td_alloc_hazard_era(&g_td, e + i);
+    ok = ok && !xv_threw && got[i] != 0 && slot_idx(got[i]) >= 0 && got[i]->value.mark == 0 && slot_era(got[i]) == e + i && got[i]->guard_cnt == 1;
+    for (int j = 0; j < i; j++) ok = ok && got[j] != got[i];
+  }
+  XV_OBL("he.alloc.k_available", ok);
+  for (int i = 0; i < XV_K; i++) ok = ok && slot_era(got[i]) == e + i;      /* earlier allocations were not disturbed by later ones */
+  XV_OBL("he.alloc.k_available", ok);
+  got[XV_K] = td_alloc_hazard_era(&g_td, e + XV_K);
+  XV_OBL("he.alloc.exhausted_throws", xv_threw == XV_EXC_bad_hazard_era_alloc && got[XV_K] == 0);
+  XV_CANARY("alloc_k.done");
+}
+
+static void h_slot(void) {
+  struct hazard_era s; s.guard_cnt = nondet_u64(); s.value.w = nondet_uptr(); s.value.lp = any_slot_or_null(); s.value.mark = nondet_bool();
+  mon_unfenced_era_store = 0; mon_last_slot_store_release = 1; xv_clock = 0;
+  uint64_t c0 = s.guard_cnt;
+  if (nondet_bool()) {
+    era_t e = nondet_u64(); XV_ASSUME(e >= 1 && e < ERA_MAX);
+    he_set_era(&s, e);
+    era_t r = 0; _Bool got = he_try_get_era(&s, &r);
+    XV_OBL("he.slot.roundtrip", got && r == e && he_get_era(&s) == e && !he_is_link(&s) && s.guard_cnt == c0);
+    XV_CANARY("slot.era");
+  } else {
+    struct hazard_era* l = any_slot_or_null(); XV_ASSUME(c0 == 0);
+    he_set_link(&s, l);
+    era_t r = nondet_u64(), r0 = r; _Bool got = he_try_get_era(&s, &r);
+    XV_OBL("he.slot.roundtrip", !got && r == r0 && he_is_link(&s) && he_get_link(&s) == l && s.guard_cnt == c0);
+    XV_CANARY("slot.link");
+  }
+  XV_ASSUME(c0 >= 1 && c0 < CNT_MAX);
+  XV_OBL("he.slot.roundtrip", he_guards(&s) == c0 && he_add_guard(&s) == c0 + 1 && he_guards(&s) == c0 + 1 && he_release_guard(&s) == c0 && he_release_guard(&s) == c0 - 1 && he_guards(&s) == c0 - 1);
+}
+
+void h_slots(void) {
+  in_op = nondet_uint();
+  switch (in_op) {
+    case 0: h_alloc(); break;
+    case 1: h_release(); break;
+    case 2: h_initialize(); break;
+    case 3: h_alloc_k(); break;
+    default: h_slot(); break;
+  }
+}
+
+/* =====================================================  guard level (SEQ)  ===================================================== */
+/* expected count of slot i after an operation, from the pre-state and the operands' new slots */
+static void chk_guard_pair(void) { chk_exit(&ga, &gb); XV_OBL("he.guard_ops.holds_slot_iff_protecting", gi1(&ga) && gi1(&gb)); }
+
+static void op_ctor_ptr(void) {
+  havoc_guard(&gb, &in_b_he, &in_b_ptr); havoc_state(0, &gb);
+  in_a_ptr = nondet_uptr(); ga.ptr = nondet_uptr(); ga.he = any_slot_or_null();    /* raw storage */
+  g_ctor_ptr(&ga, in_a_ptr);
+  if (MP_get(in_a_ptr) == 0) {
+    XV_OBL("he.ctor.protects", !xv_threw && ga.ptr == in_a_ptr && ga.he == 0 && cb_same()); chk_guard_pair(); XV_CANARY("ctor_ptr.null");
+  } else if (xv_threw) {
+    XV_OBL("he.alloc.exhausted_throws", xv_threw == XV_EXC_bad_hazard_era_alloc && cb_same() && pre_td.hint == 0 && pre_td.control_block != 0);
+    chk_exit(0, &gb); XV_CANARY("ctor_ptr.throw");
+  } else {
+    XV_OBL("he.ctor.protects", ga.ptr == in_a_ptr && ga.he != 0 && ga.he->value.mark == 0 && slot_era(ga.he) == era_clock && era_clock == pre_clock);
+    chk_guard_pair(); XV_OBL("he.guard_ops.empty_holds_no_slot", gi2(&ga));
+    if (ga.he == gb.he) XV_CANARY("ctor_ptr.shared"); else XV_CANARY("ctor_ptr.fresh");
+  }
+  XV_OBL("he.guard_ops.operand_frame", guard_eq(&gb, &pre_b));
+}
+
+static void op_ctor_copy(void) {
+  havoc_guard(&gb, &in_b_he, &in_b_ptr); havoc_state(0, &gb);
+  ga.ptr = nondet_uptr(); ga.he = any_slot_or_null();
+  g_ctor_copy(&ga, &gb);
+  XV_OBL("he.copy.shares", !xv_threw && guard_eq(&ga, &pre_b) && guard_eq(&gb, &pre_b) && g_td.hint == pre_td.hint && g_cb.last_hazard_era == pre_cb.last_hazard_era);
+  if (gb.he) { int j = slot_idx(gb.he); XV_ASSUME(j >= 0 && j < XV_K);
+    XV_OBL("he.copy.shares", gb.he->guard_cnt == pre_cb.eras[j].guard_cnt + 1 && slots_same_except(j)); XV_CANARY("copy.shared"); }
+  else { XV_OBL("he.copy.shares", cb_same()); XV_CANARY("copy.empty"); }
+  chk_guard_pair(); XV_OBL("he.guard_ops.empty_holds_no_slot", gi2(&ga) && gi2(&gb));
+}
+
+static void op_ctor_move(void) {
+  havoc_guard(&gb, &in_b_he, &in_b_ptr); havoc_state(0, &gb);
+  ga.ptr = nondet_uptr(); ga.he = any_slot_or_null();
+  g_ctor_move(&ga, &gb);
+  XV_OBL("he.move.empties_source", !xv_threw && guard_eq(&ga, &pre_b) && guard_empty(&gb) && cb_same());
+  chk_exit(&ga, &gb); XV_OBL("he.guard_ops.holds_slot_iff_protecting", gi1(&ga) && gi2(&ga));
+  if (ga.he) XV_CANARY("move.held"); else XV_CANARY("move.empty");
+}
+
+/* the slot a guard gives up: count-1, back on the chain head exactly when the count drops to 0 */
+static void chk_released(const struct hazard_era* old, unsigned extra_on_old) {
+  if (old == 0) return;
+  int j = slot_idx(old); XV_ASSUME(j >= 0 && j < XV_K);
+  uint64_t c = pre_cb.eras[j].guard_cnt - 1 + extra_on_old;
+  XV_OBL("he.release.returns_slot", old->guard_cnt == c);
+  if (c == 0) { XV_OBL("he.release.returns_slot", g_td.hint == old && old->value.mark == 1 && old->value.lp == pre_td.hint); XV_CANARY("guard.release_to_zero"); }
+  else XV_OBL("he.release.returns_slot", old->value.mark == 0 && old->value.w == pre_cb.eras[j].value.w && g_td.hint == pre_td.hint);
+}
+
+static void op_assign_copy(void) {
+  havoc_guard(&ga, &in_a_he, &in_a_ptr); havoc_guard(&gb, &in_b_he, &in_b_ptr);
+  if (nondet_bool()) {                                     /* self assignment */
+    havoc_state(&ga, 0);
+    struct guard* r = g_assign_copy(&ga, &ga);
+    XV_OBL("he.self_assign.noop", r == &ga && !xv_threw && guard_eq(&ga, &pre_a) && cb_same());
+    chk_exit(&ga, 0); XV_CANARY("assign_copy.self");
+    return;
+  }
+  havoc_state(&ga, &gb);
+  struct guard* r = g_assign_copy(&ga, &gb);
+  XV_OBL("he.copy.shares", r == &ga && !xv_threw && guard_eq(&ga, &pre_b) && guard_eq(&gb, &pre_b));
+  if (pre_a.he != pre_b.he) {
+    chk_released(pre_a.he, 0);
+    if (pre_b.he) { int j = slot_idx(pre_b.he); XV_ASSUME(j >= 0 && j < XV_K); XV_OBL("he.copy.shares", pre_b.he->guard_cnt == pre_cb.eras[j].guard_cnt + 1); }
+    XV_CANARY("assign_copy.other_slot");
+  } else { XV_OBL("he.copy.shares", cb_same()); if (pre_a.he) XV_CANARY("assign_copy.same_slot"); }
+  chk_guard_pair(); XV_OBL("he.guard_ops.empty_holds_no_slot", gi2(&ga) && gi2(&gb));
+}
+
+static void op_assign_move(void) {
+  havoc_guard(&ga, &in_a_he, &in_a_ptr); havoc_guard(&gb, &in_b_he, &in_b_ptr);
+  if (nondet_bool()) {
+    havoc_state(&ga, 0);
+    struct guard* r = g_assign_move(&ga, &ga);
+    XV_OBL("he.self_assign.noop", r == &ga && !xv_threw && guard_eq(&ga, &pre_a) && cb_same());
+    chk_exit(&ga, 0); XV_CANARY("assign_move.self");
+    return;
+  }
+  havoc_state(&ga, &gb);
+  struct guard* r = g_assign_move(&ga, &gb);
+  XV_OBL("he.move.empties_source", r == &ga && !xv_threw && guard_eq(&ga, &pre_b) && guard_empty(&gb));
+  chk_released(pre_a.he, 0);
+  if (pre_a.he == 0) XV_OBL("he.move.empties_source", cb_same());
+  /* gb gave its protection to ga: the slot pre_b relied on must still publish its era */
+  struct guard none = {0, 0}; struct inv_res res = inv_eval(&ga, &none);
+  XV_OBL("he.count.exact", res.count_ok); XV_OBL("he.guard_ops.preserve_inv", res.rest_ok);
+  XV_OBL("he.guard_ops.others_intact", others_intact(&gb));
+  XV_OBL("he.guard_ops.holds_slot_iff_protecting", gi1(&ga) && gi2(&ga));
+  XV_CANARY("assign_move.other");
+}
+
+static void op_reset(void) {
+  havoc_guard(&ga, &in_a_he, &in_a_ptr); havoc_guard(&gb, &in_b_he, &in_b_ptr); havoc_state(&ga, &gb);
+  _Bool dtor = nondet_bool();
+  if (dtor) g_dtor(&ga); else g_reset(&ga);
+  XV_OBL("he.reset.releases", !xv_threw && guard_empty(&ga) && guard_eq(&gb, &pre_b));
+  chk_released(pre_a.he, pre_a.he == pre_b.he ? 0 : 0);
+  if (pre_a.he == 0) { XV_OBL("he.reset.releases", cb_same()); XV_CANARY("reset.empty"); } else XV_CANARY("reset.held");
+  if (dtor) { chk_exit(0, &gb); XV_CANARY("reset.dtor"); } else chk_guard_pair();
+  /* a second reset changes nothing */
+  struct tcb cb1 = g_cb; struct thread_data td1 = g_td;
+  g_reset(&ga);
+  pre_cb = cb1; pre_td = td1;
+  XV_OBL("he.reset.idempotent", !xv_threw && guard_empty(&ga) && cb_same() && guard_eq(&gb, &pre_b));
+}
+
+static void op_swap(void) {
+  havoc_guard(&ga, &in_a_he, &in_a_ptr); havoc_guard(&gb, &in_b_he, &in_b_ptr); havoc_state(&ga, &gb);
+  g_swap(&ga, &gb);
+  XV_OBL("he.swap.exchanges", !xv_threw && guard_eq(&ga, &pre_b) && guard_eq(&gb, &pre_a) && cb_same());
+  struct inv_res res = inv_eval(&ga, &gb);
+  XV_OBL("he.count.exact", res.count_ok); XV_OBL("he.guard_ops.preserve_inv", res.rest_ok);
+  XV_OBL("he.guard_ops.holds_slot_iff_protecting", gi1(&ga) && gi1(&gb) && gi2(&ga) && gi2(&gb));
+  XV_CANARY("swap.done");
+}
+
+static void op_reclaim(void) {
+  havoc_guard(&ga, &in_a_he, &in_a_ptr); havoc_guard(&gb, &in_b_he, &in_b_ptr); havoc_state(&ga, &gb);
+  XV_ASSUME(MP_get(ga.ptr) != 0);                    /* precondition of reclaim: the guard holds an object */
+  XV_ASSUME(era_clock + 1 < ERA_MAX);
+  int d = nondet_int(); struct obj* rl0 = g_td.retire_list; size_t n0 = g_td.number_of_retired_nodes;
+  g_reclaim(&ga, d);
+  XV_OBL("he.reclaim.retires_then_empty", !xv_threw && guard_empty(&ga) && guard_eq(&gb, &pre_b) && g_obj_word == pre_a.ptr);
+  XV_OBL("he.reclaim.retires_then_empty", g_obj.retirement_era == pre_clock && era_clock == pre_clock + 1 && g_obj.deleter == d && g_obj.set_deleter_calls == 1);
+  XV_OBL("he.reclaim.retires_then_empty", g_td.retire_list == &g_obj && g_obj.next == rl0 && g_td.number_of_retired_nodes == n0 + 1 &&
+         g_scan_calls == ((n0 + 1 >= g_threshold) ? 1 : 0));
+  chk_released(pre_a.he, 0);
+  chk_guard_pair();
+  if (g_scan_calls) XV_CANARY("reclaim.scan"); else XV_CANARY("reclaim.noscan");
+}
+
+/* when does a (re-)acquisition need a slot it cannot get */
+static _Bool needs_fresh_slot(era_t era) {
+  _Bool own_reusable = pre_a.he != 0 && (slot_era(&pre_cb.eras[slot_idx(pre_a.he) < 0 ? 0 : slot_idx(pre_a.he)]) == era || pre_cb.eras[slot_idx(pre_a.he) < 0 ? 0 : slot_idx(pre_a.he)].guard_cnt == 1);
+  _Bool share = pre_td.control_block != 0 && pre_cb.last_hazard_era != 0 && pre_cb.last_era == era;
+  return !own_reusable && !share;
+}
+
+static void op_acquire(void) {
+  havoc_guard(&ga, &in_a_he, &in_a_ptr); havoc_guard(&gb, &in_b_he, &in_b_ptr); havoc_state(&ga, &gb);
+  in_src = g_src; in_order = nondet_int(); XV_ASSUME(in_order >= mo_relaxed && in_order <= mo_seq_cst);
+  g_acquire_seq(&ga, &g_src, in_order);
+  XV_OBL("he.guard_ops.operand_frame", guard_eq(&gb, &pre_b) && g_src == in_src && era_clock == pre_clock);
+  if (xv_threw) {
+    XV_OBL("he.alloc.exhausted_throws", xv_threw == XV_EXC_bad_hazard_era_alloc && needs_fresh_slot(pre_clock) && pre_td.hint == 0 && pre_td.control_block != 0);
+    chk_exit(&ga, &gb);
+    XV_OBL("he.acquire.exc_safe", gi1(&ga));       /* after the throw the guard does not name an object it no longer protects */
+    XV_CANARY("acquire.throw");
+  } else {
+    XV_OBL("he.alloc.k_available", 1);
+    XV_OBL("he.acquire.snapshot", ga.ptr == in_src);
+    if (in_src != 0) XV_OBL("he.acquire.era_stable", ga.he != 0 && ga.he->value.mark == 0 && slot_era(ga.he) == era_clock);
+    XV_OBL("he.acquire.null_holds_no_slot", gi2(&ga));
+    chk_guard_pair();
+    if (pre_a.he != 0 && ga.he != pre_a.he) chk_released(pre_a.he, 0);
+    if (pre_a.he != 0 && ga.he == pre_a.he && slot_era(&pre_cb.eras[slot_idx(pre_a.he) < 0 ? 0 : slot_idx(pre_a.he)]) != era_clock) XV_CANARY("acquire.reuse_own");
+    if (pre_a.he != 0 && ga.he != pre_a.he) XV_CANARY("acquire.left_shared");
+    if (pre_a.he == 0 && ga.he == gb.he) XV_CANARY("acquire.share_last");
+    if (in_src == 0) XV_CANARY("acquire.null");
+  }
+}
+
+static void op_acquire_if_equal(void) {
+  havoc_guard(&ga, &in_a_he, &in_a_ptr); havoc_guard(&gb, &in_b_he, &in_b_ptr); havoc_state(&ga, &gb);
+  in_src = g_src; in_expected = nondet_uptr(); in_order = nondet_int(); XV_ASSUME(in_order >= mo_relaxed && in_order <= mo_seq_cst);
+  _Bool r = g_acquire_if_equal(&ga, &g_src, in_expected, in_order);
+  XV_OBL("he.guard_ops.operand_frame", guard_eq(&gb, &pre_b) && g_src == in_src && era_clock == pre_clock);
+  if (xv_threw) {
+    XV_OBL("he.alloc.exhausted_throws", xv_threw == XV_EXC_bad_hazard_era_alloc && in_src == in_expected && in_src != 0 && pre_td.hint == 0 && pre_td.control_block != 0 &&
+           !(pre_a.he != 0 && pre_cb.eras[slot_idx(pre_a.he) < 0 ? 0 : slot_idx(pre_a.he)].guard_cnt == 1));
+    chk_exit(&ga, &gb);
+    XV_OBL("he.acquire_if_equal.exc_safe", gi1(&ga));
+    XV_CANARY("aie.throw");
+  } else {
+    XV_OBL("he.acquire_if_equal.iff", r == (in_src == in_expected));
+    if (r) {
+      XV_OBL("he.acquire_if_equal.iff", ga.ptr == in_expected);
+      if (in_src != 0) { XV_OBL("he.acquire.era_stable", ga.he != 0 && ga.he->value.mark == 0 && slot_era(ga.he) == era_clock); XV_CANARY("aie.true"); }
+      else XV_CANARY("aie.true_null");
+    } else { XV_OBL("he.acquire_if_equal.iff", guard_empty(&ga)); XV_CANARY("aie.false"); }
+    if (pre_a.he != 0 && ga.he != pre_a.he) chk_released(pre_a.he, 0);
+    chk_guard_pair(); XV_OBL("he.guard_ops.empty_holds_no_slot", gi2(&ga));
+  }
+}
+
+void h_guards(void) {
+  in_op = nondet_uint();
+  switch (in_op) {
+    case 0: op_ctor_ptr(); break;
+    case 1: op_ctor_copy(); break;
+    case 2: op_ctor_move(); break;
+    case 3: op_assign_copy(); break;
+    case 4: op_assign_move(); break;
+    case 5: op_reset(); break;
+    case 6: op_swap(); break;
+    case 7: op_reclaim(); break;
+    case 8: op_acquire(); break;
+    default: op_acquire_if_equal(); break;
+  }
+}
+
+/* =====================================================  guard level (INT)  ===================================================== */
+void h_int(void) {
+#ifdef XV_INT
+  havoc_guard(&ga, &in_a_he, &in_a_ptr); havoc_guard(&gb, &in_b_he, &in_b_ptr); havoc_state(&ga, &gb);
+  in_order = nondet_int(); XV_ASSUME(in_order >= mo_relaxed && in_order <= mo_seq_cst);
+  uint64_t clk0 = xv_clock;
+  in_op = nondet_uint();
+  if (in_op == 0) {
+    env_on = 1; g_acquire(&ga, &g_src, in_order); env_on = 0;
+    XV_OBL("he.guard_ops.operand_frame", guard_eq(&gb, &pre_b));
+    if (xv_threw) {
+      chk_exit(&ga, &gb);
+      XV_OBL("he.acquire.exc_safe", xv_threw == XV_EXC_bad_hazard_era_alloc && gi1(&ga));
+      XV_CANARY("int.acquire.throw");
+    } else {
+      XV_OBL("he.acquire.snapshot", mon_src_loads >= 1 && mon_last_src_clk >= clk0 && ga.ptr == mon_last_src_val);
+      XV_OBL("he.acquire.era_stable", ga.he != 0 && ga.he->value.mark == 0 && slot_era(ga.he) == mon_last_era_val && mon_last_era_clk > mon_last_src_clk);
+      XV_OBL("he.acquire.sync", XV_IS_ACQUIRE(mon_last_src_order) && mon_last_src_order != mo_consume && !mon_src_load_unfenced);
+      chk_guard_pair();
+      if (ga.ptr != 0) XV_CANARY("int.acquire.nonnull");
+      if (ga.he != pre_a.he) XV_CANARY("int.acquire.new_slot");
+    }
+  } else {
+    in_expected = nondet_uptr();
+    env_on = 1; _Bool r = g_acquire_if_equal(&ga, &g_src, in_expected, in_order); env_on = 0;
+    XV_OBL("he.guard_ops.operand_frame", guard_eq(&gb, &pre_b));
+    if (xv_threw) {
+      chk_exit(&ga, &gb);
+      XV_OBL("he.acquire_if_equal.exc_safe", xv_threw == XV_EXC_bad_hazard_era_alloc && gi1(&ga));
+      XV_CANARY("int.aie.throw");
+    } else {
+      XV_OBL("he.acquire_if_equal.iff", mon_src_loads >= 1 && mon_src_loads <= 2 && r == (mon_last_src_val == in_expected));
+      if (r) {
+        XV_OBL("he.acquire_if_equal.iff", ga.ptr == in_expected && mon_first_src_val == in_expected);
+        if (in_expected != 0) {
+          XV_OBL("he.acquire.era_stable", ga.he != 0 && ga.he->value.mark == 0 && slot_era(ga.he) == mon_last_era_val && mon_era_loads == 1 &&
+                 mon_last_era_clk > mon_first_src_clk && mon_last_src_clk > mon_last_era_clk);
+          XV_OBL("he.acquire.sync", XV_IS_ACQUIRE(mon_first_src_order) && mon_first_src_order != mo_consume && !mon_src_load_unfenced);
+          XV_CANARY("int.aie.true");
+        }
+      } else {
+        XV_OBL("he.acquire_if_equal.iff", guard_empty(&ga));
+        if (mon_src_loads == 2) XV_CANARY("int.aie.false_second"); else XV_CANARY("int.aie.false_first");
+      }
+      chk_guard_pair(); XV_OBL("he.guard_ops.empty_holds_no_slot", gi2(&ga));
+    }
+  }
+#endif
+}
